@@ -174,6 +174,8 @@ PROPS = {
             "(leaf_capacity is a power of two: maintained by the growth code, not verified here)",
             "live leaves occupy the dense prefix [0, dense_to_key.size()) (remove_leaf_at / reconcile_leaf_state, not verified here)",
             "the combiner instances are wired to the aggregates these functions name (bind_combiner_inputs / rebuild_structure: ops-table heavy, not verified)",
+            "append_leaf_path / record_removed_leaf_paths: the implicit heap (parent of p is (p-1)/2) with depth/ancestor ghost "
+            "functions; rebuild_structure and reduce_evaluate consume the recorded paths as the contracts say (not verified)",
         ],
         "assumptions": [],
         "not_decided": ["that the published value is the fold (combiner wiring and publication)", "order-independence of the result value (needs a commutative user combiner)",
@@ -204,12 +206,16 @@ PROPS = {
         "design_ref": "DESIGN.md section 8, C19",
         "trusted_base": [
             "normalize_call and try_match are deterministic per candidate (their verdict and rank adjustment do not depend on the order of candidates)",
-            "std::stable_sort yields a stable sorted permutation (library model); fmt formatting is message text only",
+            "std::stable_sort yields a stable sorted permutation, std::min_element the first minimum, std::iter_swap a swap "
+            "(library models; the comparator is taken to be 'by rank'); fmt formatting is message text only",
+            "try_match: input_ts_pattern_match / scalar_value_matches_ts_pattern / scalar_pattern_match are the matchers (their "
+            "verdicts are arbitrary; what is proved is that each supplied argument goes through one against its own parameter, "
+            "under the shared ResolutionMap or a copy of it); a variadic candidate has at least one parameter",
             "verified configuration of resolve: no wiring observers (diagnostic-only code dead), no caller-pinned size hints, winner without keyword arguments",
             "rank functions: induction over the (finite) pattern tree; sub-pattern ranks are the spec ranks",
         ],
         "assumptions": [],
-        "not_decided": ["try_match internals (scalars, defaults, requires predicates)", "the output pattern substitution used by wire (template code outside clang 14's reach)",
+        "not_decided": ["try_match: the **kwargs pack block (assumed not entered), default resolvers and requires predicates (opaque callbacks)", "the output pattern substitution used by wire (template code outside clang 14's reach)",
                         "pattern match/resolve round trip (ts_pattern_match / _resolve)"],
     },
     "C20": {
